@@ -20,6 +20,12 @@ def valid_cases(ctx, n):
     for i in range(n):
         g = TG.TsGen(ctx.rng)
         m = g.schema()
+        if ctx.rng.chance(1, 3):
+            # directives and types are separate name spaces: a directive may be called like a type of the schema
+            ds = [d["name"] for d in m["defs"] if d["k"] == "directive"]
+            ts = [d["name"] for d in m["defs"] if d["k"] in ("enum", "object", "scalar", "input", "interface", "union")]
+            if ds and ts:
+                TG.rename_directive(m, ctx.rng.choice(ds), ctx.rng.choice(ts))
         nfiles = 1 + ctx.rng.below(3)
         cases.append({"id": "v%d" % i, "mode": "valid", "files": TG.split_files(m, ctx.rng, nfiles), "model": m})
     # the hand-written catalogue schemas too (already contain their own extensions: one file, items as they are)
